@@ -174,6 +174,44 @@ def replay_bin(n, draws, CR, D):
     return set(i for i in range(D) if i == n or (i < len(draws) and draws[i] < CR))
 
 
+def judge_trials(obs, trials, strat, kind, rule, dim, NP, F, CR, sticky, which):
+    mixed = False
+    for k, tr in enumerate(trials):
+        obs.event('trials_judged')
+        d = tr['draws']
+        ok_shape = len(d) >= 2 and d[0][0] == 'sample' and d[1][0] == 'randrange' and all(x[0] == 'random' for x in d[2:]) if rule == 'Exp' or strat != 'Best1Bin' else \
+            (len(d) >= 2 and d[0][0] == 'sample' and d[1][0] == 'randrange')
+        if not ok_shape:
+            obs.check(False, 'de:random draws follow the strategy protocol', draws=[x[0] for x in d], strategy=strat); continue
+        r, n = d[0][1], d[1][1]
+        us = [x[1] for x in d[2:]]
+        # the oracle uses the CONFIGURED crossover probability and scale; what the strategy saw must be those
+        obs.check(tr['F'] == F and tr['CR'] == CR, 'de:the strategy runs with the configured CrossProbability and ScalingFactor', configured=[CR, F],
+                  seen=[tr['CR'], tr['F']], sticky=sticky, strategy=strat, solver=which)
+        tr = dict(tr, F=F, CR=CR)
+        cand, parent = tr['cand'], tr['pop'][tr['cand']]
+        obs.check(len(r) == NEEDS[kind] and len(set(r)) == len(r) and cand not in r and all(0 <= i < NP for i in r),
+                  'de:the random members are distinct, in range and differ from the target', r=r, candidate=cand, NP=NP, strategy=strat)
+        if len(r) != NEEDS[kind]: continue
+        v = [mutant(kind, j, parent, tr['pop'], tr['best'], r, tr['F']) for j in range(dim)]
+        t = tr['trial']
+        mutated = set(j for j in range(dim) if t[j] != parent[j])
+        comp_ok = all(t[j] == parent[j] or close(t[j], v[j], 1e-12) for j in range(dim))
+        obs.check(comp_ok, 'de:every trial component is the parent\'s or base + F x difference as the strategy defines', strategy=strat, trial=t, parent=parent,
+                  mutant=v, r=r, best=tr['best'], F=tr['F'], candidate=cand)
+        e_set, b_set = replay_exp(n, us, tr['CR'], dim), replay_bin(n, us, tr['CR'], dim)
+        # a mutated component may coincide with the parent's value (ties on plateaus / equal members): compare on positions that differ
+        def matches(S):
+            return mutated <= S and all(close(t[j], v[j], 1e-12) for j in S)
+        if strat == 'Best1Bin': okc = matches(b_set)
+        elif rule == 'Exp': okc = matches(e_set)
+        else: okc = matches(e_set) or matches(b_set)
+        obs.check(okc, 'de:mutated positions follow the crossover rule replayed from the recorded draws', strategy=strat, n=n, draws=us[:dim + 1], CR=tr['CR'],
+                  mutated=sorted(mutated), exponential=sorted(e_set), binomial=sorted(b_set), trial=t, parent=parent)
+        if 0 < len(mutated) < dim: mixed = True
+    return mixed
+
+
 def run_de(rng, obs):
     import mystic.strategy as ST
     from mystic.solvers import DifferentialEvolutionSolver, DifferentialEvolutionSolver2
@@ -200,6 +238,7 @@ def run_de(rng, obs):
     proxy = RNGProxy()
     trials = []
     real = getattr(ST, strat)
+    wrapper = rng.random() < 0.2          # the one-liners diffev / diffev2: cross= and scale= (documented defaults 0.9 and 0.8) reach the strategy
     def tap(inst, candidate):
         before = len(proxy.log)
         pop = [[float(v) for v in m] for m in inst.population]
@@ -214,7 +253,20 @@ def run_de(rng, obs):
     setattr(ST, strat, tap)      # sticky settings remember the strategy by name and look it up in mystic.strategy
     mixed = False
     try:
-        s.Step(strategy=tap, CrossProbability=CR, ScalingFactor=F)           # generation 0: evaluates the initial population
+        if wrapper:
+            from mystic.solvers import diffev, diffev2
+            kwd = {}
+            use_default = rng.random() < 0.5
+            if use_default: CR, F = 0.9, 0.8
+            else: kwd = {'cross': CR, 'scale': F}
+            obs.desc.update(wrapper=True, CR=CR, F=F, defaults=use_default)
+            _random.seed(obs.seed); np.random.seed(obs.seed % (2 ** 32))
+            (diffev if which == 'de' else diffev2)(probe, [(-3.0, 3.0)] * dim, npop=NP, maxiter=gens, maxfun=10 ** 6, ftol=-1.0, strategy=tap, disp=0, **kwd)
+            obs.check(len(trials) >= NP, 'de:one trial and one evaluation per member and generation', trials=len(trials), calls=probe.n, **obs.desc)
+            if judge_trials(obs, trials, strat, kind, rule, dim, NP, F, CR, 'wrapper', which): mixed = True
+            gens = 0
+        else:
+            s.Step(strategy=tap, CrossProbability=CR, ScalingFactor=F)           # generation 0: evaluates the initial population
         for g in range(gens):
             pop0 = [[float(v) for v in m] for m in s.population]
             ene0 = [K.fnum(e) for e in s.popEnergy]
@@ -226,39 +278,7 @@ def run_de(rng, obs):
             obs.check(len(trials) == NP and len(calls) == NP, 'de:one trial and one evaluation per member and generation', trials=len(trials), calls=len(calls), **obs.desc)
             if len(trials) != NP or len(calls) != NP:
                 break
-            for k, tr in enumerate(trials):
-                obs.event('trials_judged')
-                d = tr['draws']
-                ok_shape = len(d) >= 2 and d[0][0] == 'sample' and d[1][0] == 'randrange' and all(x[0] == 'random' for x in d[2:]) if rule == 'Exp' or strat != 'Best1Bin' else \
-                    (len(d) >= 2 and d[0][0] == 'sample' and d[1][0] == 'randrange')
-                if not ok_shape:
-                    obs.check(False, 'de:random draws follow the strategy protocol', draws=[x[0] for x in d], strategy=strat); continue
-                r, n = d[0][1], d[1][1]
-                us = [x[1] for x in d[2:]]
-                # the oracle uses the CONFIGURED crossover probability and scale; what the strategy saw must be those
-                obs.check(tr['F'] == F and tr['CR'] == CR, 'de:the strategy runs with the configured CrossProbability and ScalingFactor', configured=[CR, F],
-                          seen=[tr['CR'], tr['F']], sticky=sticky, strategy=strat, solver=which)
-                tr = dict(tr, F=F, CR=CR)
-                cand, parent = tr['cand'], tr['pop'][tr['cand']]
-                obs.check(len(r) == NEEDS[kind] and len(set(r)) == len(r) and cand not in r and all(0 <= i < NP for i in r),
-                          'de:the random members are distinct, in range and differ from the target', r=r, candidate=cand, NP=NP, strategy=strat)
-                if len(r) != NEEDS[kind]: continue
-                v = [mutant(kind, j, parent, tr['pop'], tr['best'], r, tr['F']) for j in range(dim)]
-                t = tr['trial']
-                mutated = set(j for j in range(dim) if t[j] != parent[j])
-                comp_ok = all(t[j] == parent[j] or close(t[j], v[j], 1e-12) for j in range(dim))
-                obs.check(comp_ok, 'de:every trial component is the parent\'s or base + F x difference as the strategy defines', strategy=strat, trial=t, parent=parent,
-                          mutant=v, r=r, best=tr['best'], F=tr['F'], candidate=cand)
-                e_set, b_set = replay_exp(n, us, tr['CR'], dim), replay_bin(n, us, tr['CR'], dim)
-                # a mutated component may coincide with the parent's value (ties on plateaus / equal members): compare on positions that differ
-                def matches(S):
-                    return mutated <= S and all(close(t[j], v[j], 1e-12) for j in S)
-                if strat == 'Best1Bin': okc = matches(b_set)
-                elif rule == 'Exp': okc = matches(e_set)
-                else: okc = matches(e_set) or matches(b_set)
-                obs.check(okc, 'de:mutated positions follow the crossover rule replayed from the recorded draws', strategy=strat, n=n, draws=us[:dim + 1], CR=tr['CR'],
-                          mutated=sorted(mutated), exponential=sorted(e_set), binomial=sorted(b_set), trial=t, parent=parent)
-                if 0 < len(mutated) < dim: mixed = True
+            if judge_trials(obs, trials, strat, kind, rule, dim, NP, F, CR, sticky, which): mixed = True
             # selection: a member is replaced only by a trial of strictly lower energy, and then equals that trial
             pop1 = [[float(v) for v in m] for m in s.population]
             ene1 = [K.fnum(e) for e in s.popEnergy]
